@@ -185,3 +185,75 @@ theorem fileCells_writeCell (c : Cfg) (files : List FileSt) (b : Blk) (inOff : N
     simp [this, hf]
 
 end WalrusVerif.Eng
+
+namespace WalrusVerif.Eng
+open WalrusVerif
+
+/-! ### reads leave the allocator and the writers alone -/
+
+/-- what the write path of an instance reads or writes besides the files -/
+def Inst.wside (i : Inst) : Nat × Nat × Nat × AMap Topic Writer := (i.allocFile, i.allocOff, i.allocId, i.writers)
+
+@[simp] theorem wside_appendBlockToChain (i : Inst) (t : Topic) (b : Blk) : (appendBlockToChain i t b).wside = i.wside := by
+  unfold appendBlockToChain Inst.wside; rfl
+@[simp] theorem wside_incCount (i : Inst) (t : Topic) (d : Nat) : (incCount i t d).wside = i.wside := by
+  unfold incCount Inst.wside; split <;> rfl
+@[simp] theorem wside_decCount (i : Inst) (t : Topic) (d : Nat) : (decCount i t d).wside = i.wside := by
+  unfold decCount Inst.wside; split <;> rfl
+@[simp] theorem wside_putReader (i : Inst) (t : Topic) (x : ColInfo) : (putReader i t x).wside = i.wside := rfl
+@[simp] theorem wside_setIndex (i : Inst) (t : Topic) (x : Pos) : (setIndex i t x).wside = i.wside := rfl
+
+theorem wside_readNextLoop (c : Cfg) (t : Topic) (cp : Bool) (fuel : Nat) (p : Proc) (i : Inst) (info : ColInfo) :
+    (readNextLoop c t cp fuel p i info).2.1.wside = i.wside := by
+  induction fuel generalizing p i info with
+  | zero => rfl
+  | succ n ih =>
+    unfold readNextLoop
+    split
+    · split
+      · exact ih _ _ _
+      · split
+        · split
+          · simp only
+            generalize shouldPersist i.mode _ false = sp
+            obtain ⟨info', persist⟩ := sp
+            cases persist <;> simp
+          · rfl
+        · rfl
+    · split
+      · rfl
+      · rename_i w hw
+        simp only
+        by_cases hcp : cp = true <;> by_cases hin : info.tailId = w.blk.id <;>
+          simp only [hcp, hin, if_false, if_true, true_and, false_and, not_true_eq_false, not_false_eq_true,
+            Bool.false_eq_true] <;>
+          (repeat' split) <;> simp
+
+theorem wside_readNext (c : Cfg) (p : Proc) (i : Inst) (t : Topic) (cp : Bool) :
+    (readNext c p i t cp).2.1.wside = i.wside := by
+  unfold readNext; exact wside_readNextLoop ..
+
+theorem wside_statefulCommit (i : Inst) (t : Topic) (info : ColInfo) (ps : PState) (cp : Bool) :
+    (statefulCommit i t info ps cp).wside = i.wside := by
+  unfold statefulCommit
+  by_cases h1 : ps.parsed > 0 ∧ cp = true
+  · simp only [h1, and_self, if_true]
+    generalize commitBatch i.mode info ps info.chain.length = r
+    obtain ⟨info', pos⟩ := r
+    cases pos <;> simp
+  · simp only [h1, if_false]
+    split <;> simp
+
+theorem wside_batchRead (c : Cfg) (p : Proc) (i : Inst) (t : Topic) (m : Nat) (cp : Bool) (st : Option Nat) :
+    (batchRead c p i t m cp st).2.1.wside = i.wside := by
+  unfold batchRead
+  cases st with
+  | some r => simp only; split <;> rfl
+  | none =>
+    simp only
+    have h : (statefulPlan c p i t m cp).i.wside = i.wside := by unfold statefulPlan; rfl
+    split
+    · exact h
+    · rw [wside_statefulCommit]; exact h
+
+end WalrusVerif.Eng
